@@ -371,9 +371,24 @@ SECS = [0, 1, -1, 2, 59, 60, 61, 3600, 86400, -86400, 10**6, 31536000,
         {'f': (1e-6).hex()}, {'f': (-1e-6).hex()}, {'f': (0.5).hex()}, {'f': (-0.5).hex()}, {'f': (0.1).hex()}, {'f': (0.3).hex()},
         {'f': (1.5).hex()}, {'f': (-0.75).hex()}, {'f': (0.000001).hex()}, {'f': (2.5e-6).hex()}, {'f': (1e-7).hex()}, {'f': (0.0).hex()},
         {'f': (-0.0).hex()}, {'f': (86399.999999).hex()}, {'f': (1234.567891).hex()}]
+def tricky_secs(rng):
+    """a float n/10**6 whose product with 1e6 is NOT the integer n in binary64 (just below or above it): truncating
+    instead of rounding, or skipping the integer/fraction split, is off by 1 us exactly on these"""
+    best = None
+    for _ in range(400):
+        n = rng.choice([rng.randint(1, 10**4), rng.randint(1, 10**7), rng.randint(1, 10**10), rng.randint(1, 4 * 10**12)]) * rng.choice([1, 1, -1])
+        x = n / 10**6
+        if int(x * 1000000) != n: return {'f': x.hex()}
+        if x * 1000000 != n: best = {'f': x.hex()}
+    return best or {'f': (1.001).hex()}
+
+SECS += [{'f': (1.001).hex()}, {'f': (0.000249).hex()}, {'f': (-1.001).hex()}, {'f': (4.35).hex()}, {'f': (1.1).hex()}, {'f': (2.675).hex()},
+         {'f': (0.0000005).hex()}, {'f': (0.0000015).hex()}, {'f': (-0.0000025).hex()}, {'f': (1.0000005).hex()}, {'f': (16777216.000001).hex()}]
+
 def rand_secs(rng):
     r = rng.random()
-    if r < 0.6: return rng.choice(SECS)
+    if r < 0.45: return rng.choice(SECS)
+    if r < 0.6: return tricky_secs(rng)
     if r < 0.75: return rng.randint(-10**5, 10**5)
     if r < 0.9: return {'f': (rng.randint(-10**9, 10**9) / 10**6).hex()}
     if r < 0.95: return {'f': (rng.uniform(-100, 100)).hex()}
@@ -538,14 +553,47 @@ def gen_cmp(rng):
     return case('cmp', [[which, targ, s]], ov={'k': 'one', 'd': {'w': now, 'tz': None}})
 
 def gen_fixture(rng):
-    """the clock clause through TimeFixture (kind clock: same oracle)"""
+    """the clock clause through TimeFixture, module-level and fixture calls interleaved (kind fixture: clock oracle)"""
     t0 = rand_wall(rng)
     cmds = [['fx_set', {'k': 'one', 'd': {'w': t0, 'tz': None}}], ['now', False], ['ts', True]]
-    for _ in range(rng.randint(1, 4)):
-        cmds.append(['fx_adv', rng.choice([0, 1, -1, 10**6, DAY, rng.randint(-10**12, 10**12), MAX_US - t0, -t0, -t0 - 1])] if rng.random() < 0.5 else ['fx_advs', rand_secs(rng)])
-        cmds.append(['now', False])
+    for _ in range(rng.randint(2, 6)):
+        d = rng.choice([0, 1, -1, 10**6, DAY, rng.randint(-10**12, 10**12), rng.randint(-10**7, 10**7), MAX_US - t0, -t0, -t0 - 1])
+        cmds.append(rng.choice([['fx_adv', d], ['adv', d], ['fx_advs', rand_secs(rng)], ['advs', rand_secs(rng)]]))
+        if rng.random() < 0.7: cmds.append(['now', False])
+    cmds.append(['now', False])
+    if rng.random() < 0.3:
+        t1 = rand_wall(rng)
+        cmds += [rng.choice([['set', {'k': 'one', 'd': {'w': t1, 'tz': None}}], ['fx_set', {'k': 'one', 'd': {'w': t1, 'tz': None}}]]),
+                 rng.choice([['fx_adv', 5], ['adv', 7], ['fx_advs', 1]]), ['now', False], ['fx_adv', -3], ['now', False]]
     if rng.random() < 0.5: cmds += [['fx_cleanup'], ['now', False]]
     return case('fixture', cmds, ov={'k': 'no'})
+
+def gen_dst(rng):
+    """a window [now, now + w] that spans a UTC-offset change of t's zone, with t placed at the boundary now + w (is_soon)
+    resp. now -/+ s (older / newer): adding the window in wall-clock arithmetic of t's zone is off by the offset change"""
+    fw = fold_walls()
+    if not fw: return gen_cmp(rng)
+    key, w = rng.choice(fw)
+    z = _zi.ZoneInfo(key)
+    trans = utc_instant(mkdt({'w': w, 'tz': ['zone', key], 'fold': 0}))
+    if trans is None: return gen_cmp(rng)
+    tr = wall_us(trans)
+    which = rng.choice(['soon', 'soon', 'older', 'newer'])
+    before = rng.choice([1, 60, 3600, 7200, 86400, 10 * 86400, rng.randint(1, 40 * 86400)]) * 10**6
+    after = rng.choice([1, 60, 3600, 7200, 86400, 10 * 86400, rng.randint(1, 40 * 86400)]) * 10**6
+    if which == 'older': t_inst, now = tr - before, tr + after
+    else: now, t_inst = tr - before, tr + after
+    span = abs(t_inst - now)
+    eps = rng.choice([0, 0, 1, -1, 10**6, -10**6, 1800 * 10**6, -1800 * 10**6, 3599 * 10**6, -3599 * 10**6, 3600 * 10**6, -3600 * 10**6])
+    s_us = span + eps
+    s = s_us // 10**6 if s_us % 10**6 == 0 else {'f': (s_us / 10**6).hex()}
+    if not (in_rng(now) and in_rng(t_inst)): return gen_cmp(rng)
+    try: d = (DMIN + TD(microseconds=t_inst)).replace(tzinfo=UTC).astimezone(z)
+    except OverflowError: return gen_cmp(rng)
+    spec = {'w': wall_us(d), 'tz': ['zone', key], 'fold': d.fold}
+    targ = {'d': spec}
+    if rng.random() < 0.15 and (d.utcoffset() // US) % MIN == 0: targ = {'s': d.isoformat()}
+    return case('cmp', [[which, targ, s]], ov={'k': 'one', 'd': {'w': now, 'tz': None}})
 
 def rand_ov(rng):
     r = rng.random()
@@ -643,7 +691,7 @@ def fixed_cases():
                     ov={'k': 'many', 'l': [{'w': 5, 'tz': None}, {'w': MAX_US, 'tz': None}]}))
     return out
 
-GENS = [(gen_fold, 12), (gen_fixture, 4), (gen_norm, 10), (gen_iso, 10), (gen_marsh, 10), (gen_leap, 5), (gen_unm, 8), (gen_clock, 12), (gen_cmp, 25), (gen_seq, 10), (gen_parse, 5), (gen_cal, 8), (gen_dsec, 4)]
+GENS = [(gen_fold, 12), (gen_dst, 8), (gen_fixture, 6), (gen_norm, 10), (gen_iso, 10), (gen_marsh, 10), (gen_leap, 5), (gen_unm, 8), (gen_clock, 12), (gen_cmp, 25), (gen_seq, 10), (gen_parse, 5), (gen_cal, 8), (gen_dsec, 4)]
 def gen_cases(rng, tier):
     yield from fixed_cases()
     n = 5000 if tier == 'quick' else 500000
@@ -652,7 +700,7 @@ def gen_cases(rng, tier):
         yield rng.choice(fs)(rng)
 
 def search(rng, budget):
-    fs = [gen_cmp] * 4 + [gen_fold] * 3 + [gen_clock] * 2 + [gen_marsh, gen_leap, gen_norm, gen_iso, gen_unm]
+    fs = [gen_cmp] * 4 + [gen_fold] * 3 + [gen_dst] * 3 + [gen_fixture] * 2 + [gen_clock] * 2 + [gen_marsh, gen_leap, gen_norm, gen_iso, gen_unm]
     yield from fixed_cases()
     for _ in range(budget):
         yield rng.choice(fs)(rng)
